@@ -38,7 +38,7 @@ theorem closedAt_setReset (s : Streams) (k : Nat) (r : Reason) (i : Initiator) :
 -- ===================================================================== clear_queue
 
 theorem xp_clear (x : Stream) (h : x.state.isSendStreaming = false) : (fClr x).key = x.key ∧ Xp sv x (fClr x) := by
-  refine ⟨rfl, ⟨fun hx => ⟨fun hl hs => ⟨rfl, (hx.n hl hs).2.1, rfl⟩, fun hf => ?_⟩⟩⟩
+  refine ⟨rfl, ⟨fun r hx => ⟨fun hl hs => ⟨rfl, (hx.n hl hs).2.1, rfl⟩, fun hf => ?_, fun _ => Nat.zero_le _⟩⟩⟩
   rcases hx.f hf with hw | hd
   · exact .inl ⟨hw.1, rfl, fun _ => ⟨h, rfl⟩⟩
   · exact .inr ⟨hd.1, rfl, rfl⟩
@@ -75,7 +75,8 @@ theorem xp_keep (x : Stream) (f : SFrame) (hc : x.state.isClosed = true) (hf : x
     (fApp f (fClr (fDrop x))).key = x.key ∧ Xp sv x (fApp f (fClr (fDrop x))) := by
   have hle : dsum [f] ≤ dsum x.pendingSend := by
     have := dsum_head_le x.pendingSend; rw [hf] at this; exact this
-  refine ⟨rfl, ⟨fun hx => ⟨fun _ hs => (by have hs' : suB x.state = true := hs; rw [suB_closed hc] at hs'; cases hs'), fun hfl => ?_⟩⟩⟩
+  refine ⟨rfl, ⟨fun r hx => ⟨fun _ hs => (by have hs' : suB x.state = true := hs; rw [suB_closed hc] at hs'; cases hs'),
+    fun hfl => ?_, fun _ => Nat.zero_le _⟩⟩⟩
   have hfl' : flagB x = true := hfl
   rcases hx.f hfl' with hw | hd
   · refine .inl ⟨hw.1, ?_, fun hp => absurd hp (by show ([] ++ [f] : List SFrame) ≠ []; simp)⟩
@@ -88,15 +89,16 @@ theorem xp_keep (x : Stream) (f : SFrame) (hc : x.state.isClosed = true) (hf : x
 
 theorem xp_dropClear (x : Stream) (hc : x.state.isClosed = true) :
     (fClr (fDrop x)).key = x.key ∧ Xp sv x (fClr (fDrop x)) := by
-  refine ⟨rfl, ⟨fun hx => ⟨fun _ hs => (by have hs' : suB x.state = true := hs; rw [suB_closed hc] at hs'; cases hs'), fun hfl => ?_⟩⟩⟩
+  refine ⟨rfl, ⟨fun r hx => ⟨fun _ hs => (by have hs' : suB x.state = true := hs; rw [suB_closed hc] at hs'; cases hs'),
+    fun hfl => ?_, fun _ => Nat.zero_le _⟩⟩⟩
   have hfl' : flagB x = true := hfl
   rcases hx.f hfl' with hw | hd
   · exact .inl ⟨hw.1, rfl, fun _ => ⟨closed_not_streaming hc, rfl⟩⟩
   · exact .inr ⟨hd.1, rfl, rfl⟩
 
 theorem ClosedAt.nsu {s : Streams} {k : Nat} (hc : ClosedAt s k) :
-    Live s k → XE sv (s.stream k) → locId sv (s.stream k).id = true → suB (s.stream k).state = true → False :=
-  fun hl _ _ hsu => by rw [suB_closed (hc hl)] at hsu; cases hsu
+    Live s k → ∀ r, XEr sv r (s.stream k) → locId sv (s.stream k).id = true → suB (s.stream k).state = true → False :=
+  fun hl _ _ _ hsu => by rw [suB_closed (hc hl)] at hsu; cases hsu
 
 theorem sendSendReset_xk (s : Streams) (k : Nat) (r : Reason) (i : Initiator) : XK sv s (s.sendSendReset k r i) := by
   unfold Streams.sendSendReset
@@ -163,7 +165,7 @@ theorem sendPushPromise_xk (s : Streams) (p pk pid : Nat) (f : List Hpack.Field)
     · exact .refl _
     · split
       · exact .refl _
-      · exact queueFrame_xk' s p _ rfl (fun _ _ hl _ => by rw [hty] at hl; cases hl)
+      · exact queueFrame_xk' s p _ rfl (fun _ _ _ hl _ => by rw [hty] at hl; cases hl)
 
 theorem sendInterimInformationalHeaders_xk (s : Streams) (k : Nat) (f : List Hpack.Field)
     (hty : locId sv (s.stream k).id = false) : XK sv s (s.sendInterimInformationalHeaders k f).1 := by
@@ -173,7 +175,7 @@ theorem sendInterimInformationalHeaders_xk (s : Streams) (k : Nat) (f : List Hpa
   · dsimp only
     split
     · exact .refl _
-    · exact queueFrame_xk' s k _ rfl (fun _ _ hl _ => by rw [hty] at hl; cases hl)
+    · exact queueFrame_xk' s k _ rfl (fun _ _ _ hl _ => by rw [hty] at hl; cases hl)
 
 -- ===================================================================== schedule_implicit_reset, send_trailers
 
@@ -192,7 +194,7 @@ theorem scheduleImplicitReset_xk (s : Streams) (k : Nat) (r : Reason) : XK sv s 
     generalize (s.modStream k fun st => { st with state := st.state.setScheduledReset r }) = s1 at h1 hc1 ⊢
     have hsk := reclaimReservedCapacity_sk (sv := sv) s1 k
     refine h1.trans ((reclaimReservedCapacity_xk s1 k).trans (scheduleSend_xk' _ _ ?_))
-    intro hl _ _ hsu
+    intro hl _ _ _ hsu
     have hl1 := hsk.live k hl
     have := (hsk.st k hl).su hsu
     rw [suB_closed (hc1 hl1)] at this; cases this
@@ -214,12 +216,12 @@ theorem sendTrailers_xk (s : Streams) (k : Nat) (f : List Hpack.Field) : XK sv s
       | none =>
         dsimp only
         refine (panic_xk s _).trans (queueFrame_xk' _ k _ rfl ?_)
-        intro _ _ _ hsu
+        intro _ _ _ _ hsu
         rw [panic_stream, su_of_streaming hss'] at hsu; cases hsu
       | some st' =>
         dsimp only
         refine (modStream_xk s k _ (by xp_tac)).trans (queueFrame_xk' _ k _ rfl ?_)
-        intro hl _ _ hsu
+        intro hl _ _ _ hsu
         have hl0 : Live s k := (SameKeys.modStream s k _).live.mp hl
         have := stream_modStream_live hl0 (fun st => ({ st with state := st' } : Stream)) (fun _ => rfl)
         rw [this] at hsu
